@@ -37,6 +37,7 @@ var blockingCalls = map[string]string{
 	"io.Copy":                         "copy until EOF",
 	"(*net/http.Server).ListenAndServe": "serve",
 	"(*net/http.Server).Serve":        "serve",
+	"(*net/http.Server).Shutdown":     "graceful shutdown (waits for active connections until its context ends)",
 	"(*sync.WaitGroup).Wait":          "wait group",
 	"(*sync.Cond).Wait":               "condition wait",
 	"time.Sleep":                      "sleep",
